@@ -91,6 +91,8 @@ func generate(family string, n int, seed uint64) []Scenario {
 			out = append(out, genC09(rr, i))
 		case "f8":
 			out = append(out, genF8(i))
+		case "stale":
+			out = append(out, genStale(i))
 		case "boot":
 			out = append(out, genBoot(rr, i))
 		default:
